@@ -118,7 +118,7 @@ PROPS = {
 NOT_APPLICABLE = {p: "check exists (model, theorems, engine committed) but is being reconciled with the merged tree: two repairs landed in the same receiver loop and the model must follow before the check is claimed (DESIGN.md §9)" for p in
                   ["C%02d" % i for i in range(1, 21)]}
 # properties whose check exists but is being reconciled with the current tree (not claimed in MANIFEST meanwhile)
-HOLD = ["C08", "C13"]
+HOLD = ["C08"]
 HOOK_COMMITS = ["c6f7867", "24f55f1", "656796a"]
 
 PROPS["C16"] = {'assumptions': ['HKDF-SHA256 is injective on the secrets in use (collision resistance)',
